@@ -183,7 +183,7 @@ def kani_env():
 
 
 def build(root, log_path):
-    cmd = ["cargo", "kani", "--features", FEATURES, "--target-dir", os.path.join(root, "target"), "--only-codegen"]
+    cmd = ["cargo", "kani", "-Z", "stubbing", "--features", FEATURES, "--target-dir", os.path.join(root, "target"), "--only-codegen"]
     rc, out, dt, to = run_cmd(cmd, os.path.join(root, "repo"), 1800, env=kani_env())
     open(log_path, "w").write(out)
     return rc == 0 and not to, out, dt
@@ -239,7 +239,7 @@ def check_class(cid):
 
 
 def run_harness(root, h, logdir):
-    cmd = ["cargo", "kani", "--features", FEATURES, "--target-dir", os.path.join(root, "target"),
+    cmd = ["cargo", "kani", "-Z", "stubbing", "--features", FEATURES, "--target-dir", os.path.join(root, "target"),
            "--harness", h.name] + h.flags
     rc, out, dt, to = run_cmd(cmd, os.path.join(root, "repo"), h.timeout, mem_gb=h.mem_gb, env=kani_env())
     open(os.path.join(logdir, h.name + ".log"), "w").write(out)
@@ -250,6 +250,8 @@ def run_harness(root, h, logdir):
     failed = [c for c in checks if c["status"] == "FAILURE"]
     undet = [c for c in checks if c["status"] == "UNDETERMINED"]
     covers = [c for c in checks if check_class(c["id"]) == "cover"]
+    # a witness whose text starts with "@<harness>:" is only required in that harness
+    covers = [c for c in covers if not (c["desc"].startswith("@") and not c["desc"].startswith("@" + h.name + ":"))]
     res["covers"] = {"total": len(covers), "satisfied": sum(1 for c in covers if c["status"] == "SATISFIED")}
     res["reachable_checks"] = sum(1 for c in checks if c["status"] in ("SUCCESS", "FAILURE", "SATISFIED"))
     res["failed_checks"] = [{"id": c["id"], "desc": c["desc"], "loc": c["loc"]} for c in failed][:20]
@@ -332,7 +334,7 @@ def run_harness(root, h, logdir):
 def replay(root, h, logdir, out_dir):
     os.makedirs(out_dir, exist_ok=True)
     tdir = os.path.join(root, "target")
-    base = ["cargo", "kani", "--features", FEATURES, "--target-dir", tdir, "--harness", h.name] + h.flags
+    base = ["cargo", "kani", "-Z", "stubbing", "--features", FEATURES, "--target-dir", tdir, "--harness", h.name] + h.flags
     cmd = base + ["-Z", "concrete-playback", "--concrete-playback=inplace"]
     rc, out, dt, to = run_cmd(cmd, os.path.join(root, "repo"), h.timeout * 2, mem_gb=h.mem_gb, env=kani_env())
     open(os.path.join(logdir, h.name + ".playback-gen.log"), "w").write(out)
